@@ -170,7 +170,40 @@ Print Assumptions set_zero_direct_refuted.
    T1 (induction on the nested space + induction on the leaf sequence): at EVERY
    leaf the output holds a*x1 + b*x2 of the INITIAL operand leaves (converted to
    the leaf dtype for non-floating leaves); nothing but the leaves of out changes. *)
-From Verif Require Import C01.ModelSpace C01.ProofsSpace.
+From Verif Require Import Gen.SpaceOps C01.ModelSpace C01.ProofsSpace.
+
+(* The wrapper layers, REGENERATED by translate/space_ops.py into Gen/SpaceOps.v:
+   NumpyTensorSpace._lincomb/_multiply/_divide, ProductSpace._lincomb/_multiply/_divide,
+   DiscretizedSpace._lincomb/_multiply/_divide, LinearSpace.lincomb/multiply/divide and the
+   LinearSpaceElement operators (as programs).  Facts about the CURRENT source on which the
+   theorems below depend: every layer passes (a, x1, b, x2, out) / (x1, x2, out) through
+   unchanged (lincomb(a, x1) reaches _lincomb as (a, x1, 0, x1, out)); the scalars are not
+   converted on the way (any other statement in LinearSpace.lincomb fails the translator); the
+   tensor ufunc calls are np.multiply / np.divide of (x1, x2) with out= and no other keyword. *)
+Theorem wrapper_layers_pass_arguments_through :
+  tensor_lincomb_call = (SA, X1, SB, X2, OUT) /\ pspace_lincomb_call = (SA, X1, SB, X2, OUT)
+  /\ discr_lincomb_call = (SA, X1, SB, X2, OUT)
+  /\ tensor_multiply_call = (UMul, X1, X2, OUT) /\ tensor_divide_call = (UDiv, X1, X2, OUT)
+  /\ pspace_multiply_call = (X1, X2, OUT) /\ pspace_divide_call = (X1, X2, OUT)
+  /\ discr_multiply_call = (X1, X2, OUT) /\ discr_divide_call = (X1, X2, OUT)
+  /\ space_lincomb1_call = (SA, X1, SK 0, X1, OUT) /\ space_lincomb2_call = (SA, X1, SB, X2, OUT)
+  /\ space_multiply_call = (X1, X2, OUT) /\ space_divide_call = (X1, X2, OUT).
+Proof. exact calls_are_identity. Qed.
+
+(* multiply / divide write every entry of out from the operands, whatever out held before --
+   at ANY carrier, in particular the poisoned one (old contents None everywhere) *)
+Theorem multiply_ignores_old_out :
+  forall (T : Type) (N : Num T) (x1 x2 out : nat) (s : store T) (garbage : list T),
+  out <> x1 -> out <> x2 ->
+  exists s', multiply_impl x1 x2 out (upd s out garbage) = Ok s'
+    /\ s' out = vmul (s x1) (s x2) /\ forall j, j <> out -> s' j = s j.
+Proof. exact @multiply_old_out. Qed.
+Theorem divide_ignores_old_out :
+  forall (T : Type) (N : Num T) (x1 x2 out : nat) (s : store T) (garbage : list T),
+  out <> x1 -> out <> x2 ->
+  exists s', divide_impl x1 x2 out (upd s out garbage) = Ok s'
+    /\ s' out = vdiv (s x1) (s x2) /\ forall j, j <> out -> s' j = s j.
+Proof. exact @divide_old_out. Qed.
 
 Theorem pspace_lincomb_correct :
   forall (T : Type) (N : Num T) (F : NumField T)
@@ -246,8 +279,8 @@ Qed.
 
 (* ---------------------------------------------------------------------------
    T1  the public operators of LinearSpaceElement on a tensor / discretized space
-   (floating dtype): each program (C01/ModelSpace.v, a transcription of
-   odl/set/space.py tied to the code by the correspondence) returns, its output
+   (floating dtype): each program (w_add := run_w prog_add_elem ..., the programs prog_* being
+   REGENERATED from odl/set/space.py into Gen/SpaceOps.v and interpreted by C01/ModelSpace.v) returns, its output
    holds the entry-wise specification, and every other buffer -- in particular the
    operand that is not the output -- is unchanged.  [yields m s out spec] :=
    exists s', m s = Ok s' /\ s' out = spec /\ forall j <> out, s' j = s j.
@@ -310,11 +343,11 @@ Theorem op_rsub_scalar : forall (c : T) (x t : nat) (s : store T),
   yields (w_rsub_scalar flg bdtf icast sp (Leaf x) c (Leaf t)) s t (map (fun e => c - e) (s x)).
 Proof. exact (rsub_scalar_spec flg bdtf icast). Qed.
 Theorem op_mul : forall (x y t : nat) (s : store T),
-  yields (w_mul sp (Leaf x) (Leaf y) (Leaf t)) s t (vmul (s y) (s x)).
-Proof. exact mul_spec. Qed.
+  yields (w_mul flg bdtf icast sp (Leaf x) (Leaf y) (Leaf t)) s t (vmul (s y) (s x)).
+Proof. exact (mul_spec flg bdtf icast). Qed.
 Theorem op_truediv : forall (x y t : nat) (s : store T),
-  yields (w_truediv sp (Leaf x) (Leaf y) (Leaf t)) s t (vdiv (s x) (s y)).
-Proof. exact truediv_spec. Qed.
+  yields (w_truediv flg bdtf icast sp (Leaf x) (Leaf y) (Leaf t)) s t (vdiv (s x) (s y)).
+Proof. exact (truediv_spec flg bdtf icast). Qed.
 Theorem op_rsub : forall (x y t : nat) (s : store T),
   length (s y) = length (s x) -> length (s t) = length (s y) ->
   yields (w_rsub flg bdtf icast sp (Leaf x) (Leaf y) (Leaf t)) s t (vsub (s y) (s x)).
@@ -331,14 +364,14 @@ Theorem op_iadd_scalar : forall (c : T) (x t : nat) (s : store T),
     /\ forall j, j <> x -> j <> t -> s' j = s j.
 Proof. exact (iadd_scalar_spec flg bdtf icast). Qed.
 Theorem op_imul : forall (x y : nat) (s : store T),
-  yields (w_imul sp (Leaf x) (Leaf y)) s x (vmul (s y) (s x)).
-Proof. exact imul_spec. Qed.
+  yields (w_imul flg bdtf icast sp (Leaf x) (Leaf y)) s x (vmul (s y) (s x)).
+Proof. exact (imul_spec flg bdtf icast). Qed.
 Theorem op_itruediv : forall (x y : nat) (s : store T),
-  yields (w_itruediv sp (Leaf x) (Leaf y)) s x (vdiv (s x) (s y)).
-Proof. exact itruediv_spec. Qed.
+  yields (w_itruediv flg bdtf icast sp (Leaf x) (Leaf y)) s x (vdiv (s x) (s y)).
+Proof. exact (itruediv_spec flg bdtf icast). Qed.
 Theorem op_rtruediv : forall (x y t : nat) (s : store T),
-  yields (w_rtruediv sp (Leaf x) (Leaf y) (Leaf t)) s t (vdiv (s y) (s x)).
-Proof. exact rtruediv_spec. Qed.
+  yields (w_rtruediv flg bdtf icast sp (Leaf x) (Leaf y) (Leaf t)) s t (vdiv (s y) (s x)).
+Proof. exact (rtruediv_spec flg bdtf icast). Qed.
 End Operators.
 Print Assumptions op_rsub_scalar.
 Print Assumptions op_add_scalar.
